@@ -544,6 +544,8 @@ class C06(SearchSpec):
                 for b in range(n):
                     steps.append("cmp %d %d" % (a, b))
             out.append(Case("cmp" + cls, cls, steps, dict(kind="node-comparison")))
+            # a node value type whose PartialOrd disagrees with its Ord: the library must go through Ord only
+            out.append(Case("nvord" + cls, cls, ["nvord"], dict(kind="value-type-with-PartialOrd-unlike-Ord")))
         return out
 
     def nontrivial(self, case):
